@@ -15,7 +15,7 @@ EXPLANATION = ('Relational checks between what the introspection writers emit an
                'computes and the tag it selects on, and nothing else is listed. (options) every reported value equals OptionStore.get_value_for.')
 ASSUMPTIONS = ['backend.create_install_data() and Build.get_tests() are stubs returning symbolic entries ("whatever the backend produced")', 'targets are stub Executable / SharedLibrary objects',
                'native, non-Windows host']
-OUT = 'list_targets, intro-buildsystem_files.json, agreement with build.ninja (need a real backend and a configured project), benchmarks go through the same code as tests'
+OUT = 'list_targets, option files in intro-buildsystem_files.json, agreement with build.ninja (need a real backend and a configured project), benchmarks go through the same code as tests'
 MANIFEST = dict(
     text='Bounded symbolic relational check of three projections (tests, install plan, build options) between the introspection writers and their consumers, incl. the real Backend.generate_*_install name/path pairs and subproject option values. '
          'Targets and build-system files, and agreement with build.ninja, are outside.',
@@ -301,6 +301,46 @@ def ob_install_targets():
     return h
 
 
+def ob_buildsystem_files():
+    """intro-buildsystem_files.json: the real Interpreter runs a build definition whose subdir() / subproject() calls are guarded by SYMBOLIC conditions (one
+    subdir nested in another); what Interpreter.get_build_def_files() -> Build.def_files -> mintro.list_buildsystem_files reports is exactly the set of
+    build-definition files that were read on that path - each once"""
+    def h():
+        import os
+        import harness.c01 as c01
+        if c01.ENV is None: c01.setup()
+        tag = 'q%d' % os.getpid()
+        names = {k: k + tag for k in ('sa', 'sb', 'sp')}
+        c01.write_tree_file(names['sa'] + '/meson.build', "x = 1\n")
+        c01.write_tree_file(names['sb'] + '/meson.build', "if B2\n  subdir('inner')\nendif\n")
+        c01.write_tree_file(names['sb'] + '/inner/meson.build', "y = 2\n")
+        c01.write_tree_file('subprojects/' + names['sp'] + '/meson.build', "project('%s')\nz = 3\n" % names['sp'])
+        P = {'B%d' % i: sym_bool('B%d' % i) for i in range(4)}
+        text = ("project('p')\nif B0\n  subdir('%s')\nendif\nif B1\n  subdir('%s')\nendif\nif B3\n  sp = subproject('%s')\nendif\n" % (names['sa'], names['sb'], names['sp']))
+        root = os.path.join(c01.ENV.get_source_dir(), 'meson.build')
+        with open(root, 'w') as f: f.write(text)          # the interpreter loads the root file itself (that is where it is registered)
+        try:
+            it = c01.Interpreter(c01.B.Build(c01.ENV), backend=None, user_defined_options=c01.OPTS)
+            for k, v in P.items(): it.variables[k] = it._holderify(v)
+            it.run()
+        finally:
+            with open(root, 'w') as f: f.write("project('p')\n")
+        b = types.SimpleNamespace(environment=c01.ENV, def_files=it.get_build_def_files())
+        got = MT.list_buildsystem_files(None, b, None)
+        src = c01.ENV.get_source_dir()
+        rel = [os.path.relpath(g, src) for g in got]
+        exp = ['meson.build']
+        if decide(bt_any(P['B0'])): exp.append(names['sa'] + '/meson.build')
+        if decide(bt_any(P['B1'])):
+            exp.append(names['sb'] + '/meson.build')
+            if decide(bt_any(P['B2'])): exp.append(names['sb'] + '/inner/meson.build')
+        if decide(bt_any(P['B3'])): exp.append('subprojects/' + names['sp'] + '/meson.build')
+        check(len(rel) == len(set(rel)), 'no build-definition file is listed twice')
+        check(set(rel) == set(exp), 'exactly the build-definition files that were read are listed')
+        cover('done')
+    return h
+
+
 def ob_options():
     def h():
         st = O.OptionStore(False)
@@ -349,4 +389,5 @@ def obligations(tier):
                           placeholders='{prefix} {includedir} {mandir} {datadir}', strip_directory='both'), labels=('headers', 'man', 'data', 'install_subdirs', 'targets'), max_paths=3000000))
     out.append(Obligation('buildoptions', ob_options(), dict(options='project int/bool, system combo, builtin bool; symbolic values'), labels=('done',)))
     out.append(Obligation('install-targets', ob_install_targets(), dict(real='Backend.generate_target_install, CustomTarget.install_dir_names, mintro.list_install_plan', outputs='1-3', install_dir="one for all | one per output; false | plain string | get_option('bindir') | get_option('datadir')"), labels=('installed', 'nothing')))
+    out.append(Obligation('buildsystem-files', ob_buildsystem_files(), dict(real='Interpreter (subdir, subproject), get_build_def_files, mintro.list_buildsystem_files', guards='4 symbolic conditions: two subdirs (one with a nested subdir), one subproject'), labels=('done',)))
     return out
